@@ -209,6 +209,12 @@ def run(ck, prog, ctx):
                 seen_ids.add(rb_.id)
     else:
         bodies = [calc]
+        if not float_div_sites(calc):
+            # `calculate` hands the arithmetic on to a private helper (`IcTotal::information_content`): examined wherever it lives
+            for rid in sorted(prog.reachable_bodies([calc.id])):
+                rb_ = prog.bodies.get(rid)
+                if rb_ is not None and rb_.id != calc.id and rb_.kind in ("Fn", "AssocFn") and not rb_.test and float_div_sites(rb_):
+                    bodies.append(rb_)
     ai = absint.Interp(prog)
     nsites = 0
     for b in bodies:
